@@ -285,6 +285,11 @@ func (f *FibStrategyHashTable) InsertNextHopEnc(name enc.Name, nexthop uint64, c
 	f.fibStrategyRWMutex.Lock()
 	defer f.fibStrategyRWMutex.Unlock()
 
+	f.insertNextHop(name, nexthop, cost)
+}
+
+// insertNextHop is InsertNextHopEnc for callers that hold the write lock.
+func (f *FibStrategyHashTable) insertNextHop(name enc.Name, nexthop uint64, cost uint64) {
 	realEntry := f.insertEntryEnc(name)
 
 	for i, existingNextHop := range realEntry.nexthops {
@@ -310,6 +315,24 @@ func (f *FibStrategyHashTable) ClearNextHopsEnc(name enc.Name) {
 	f.fibStrategyRWMutex.Lock()
 	defer f.fibStrategyRWMutex.Unlock()
 
+	f.clearNextHops(name)
+}
+
+// ReplaceNextHopsEnc atomically replaces the nexthop sets of the given prefixes.
+func (f *FibStrategyHashTable) ReplaceNextHopsEnc(updates []FibNextHopsUpdate) {
+	f.fibStrategyRWMutex.Lock()
+	defer f.fibStrategyRWMutex.Unlock()
+
+	for _, update := range updates {
+		f.clearNextHops(update.Name)
+		for _, nexthop := range update.Nexthops {
+			f.insertNextHop(update.Name, nexthop.Nexthop, nexthop.Cost)
+		}
+	}
+}
+
+// clearNextHops is ClearNextHopsEnc for callers that hold the write lock.
+func (f *FibStrategyHashTable) clearNextHops(name enc.Name) {
 	entry, ok := f.realTable[name.Hash()]
 	if ok {
 		entry.nexthops = make([]*FibNextHopEntry, 0)
